@@ -87,3 +87,107 @@ def jsonDumpsBody (s : Str) : Str := s.flatMap jsonEscapeChar
 def reprInt (i : Int) : Str := (toString i).toList
 
 end JPV.Py
+
+namespace JPV.Py
+
+/-! ### `float(text)` for the lexer's number spellings
+
+Round-to-nearest-even onto binary64 with integer arithmetic.  *Modelled*, not
+verified: assumed to describe CPython's `float()` (correctly rounded
+`strtod`); exercised directly by the `py.float` correspondence op. -/
+
+/-- quotient and "twice the remainder compared with the divisor" of `n / (d * 2^e)` (`e` may be negative) -/
+def scaledDiv (n d : Nat) (e : Int) : Nat × Nat × Nat :=
+  if e ≥ 0 then
+    let den := d * 2 ^ e.toNat
+    (n / den, n % den, den)
+  else
+    let num := n * 2 ^ (-e).toNat
+    (num / d, num % d, d)
+
+/-- Nearest binary64 to the non-negative rational `n / d` (`d > 0`), ties to even:
+`some (m, e)` is the value `m * 2^e` with `m < 2^53`, `e ≥ -1074`; `none` is overflow (`inf`). -/
+def roundBinary64 (n d : Nat) : Option (Nat × Int) :=
+  if n = 0 then some (0, 0) else
+  let e0 : Int := (Nat.log2 n : Int) - (Nat.log2 d : Int) - 52
+  -- the right exponent is one of e0-1, e0, e0+1 (or the subnormal floor)
+  let pick (e : Int) : Option Int :=
+    let e' := if e < -1074 then -1074 else e
+    let (q, _, _) := scaledDiv n d e'
+    if q < 2 ^ 53 ∧ (q ≥ 2 ^ 52 ∨ e' = -1074) then some e' else none
+  let e := ((pick (e0 - 1)).orElse (fun _ => (pick e0).orElse (fun _ => pick (e0 + 1)))).getD (e0 + 2)
+  let (q, r, den) := scaledDiv n d e
+  let q := if 2 * r > den ∨ (2 * r = den ∧ q % 2 = 1) then q + 1 else q
+  let (q, e) := if q = 2 ^ 53 then (2 ^ 52, e + 1) else (q, e)
+  if e > 971 then none else some (q, e)
+
+/-- reduce `m * 2^e` to an exact fraction in lowest terms (what `as_integer_ratio` returns) -/
+def ratioOfBinary (m : Nat) (e : Int) : Nat × Nat :=
+  if e ≥ 0 then (m * 2 ^ e.toNat, 1) else
+  let d := 2 ^ (-e).toNat
+  let g := Nat.gcd m d
+  (m / g, d / g)
+
+def digitsToNat (ds : List Char) : Nat := ds.foldl (fun acc c => acc * 10 + (c.toNat - 48)) 0
+
+def allDigits (ds : List Char) : Bool := !ds.isEmpty && ds.all (fun c => '0' ≤ c && c ≤ '9')
+
+/-- A decimal spelling `-?D+(.D+)?([eE][+-]?D+)?` as sign and exact rational `n / d`;
+`none` = Python's `float()` would raise `ValueError` (e.g. the stray `:` RE_FLOAT admits). -/
+def parseDecimal (s : Str) : Option (Bool × Nat × Nat) :=
+  let (neg, s) := match s with
+    | '-' :: r => (true, r)
+    | _ => (false, s)
+  let ip := s.takeWhile (fun c => '0' ≤ c && c ≤ '9')
+  let r := s.drop ip.length
+  let (fp, r) := match r with
+    | '.' :: r' =>
+      let f := r'.takeWhile (fun c => '0' ≤ c && c ≤ '9')
+      (some f, r'.drop f.length)
+    | _ => (none, r)
+  let ex : Option Int := match r with
+    | [] => some 0
+    | e :: r' =>
+      if e = 'e' || e = 'E' then
+        let (sg, ds) := match r' with
+          | '+' :: ds => (1, ds)
+          | '-' :: ds => (-1, ds)
+          | _ => ((1 : Int), r')
+        if allDigits ds then some (sg * (digitsToNat ds : Int)) else none
+      else none
+  if !allDigits ip then none else
+  match fp, ex with
+  | some f, some x =>
+    if !allDigits f then none else
+    let mant := digitsToNat (ip ++ f)
+    let x' := x - (f.length : Int)
+    if x' ≥ 0 then some (neg, mant * 10 ^ x'.toNat, 1) else some (neg, mant, 10 ^ (-x').toNat)
+  | none, some x =>
+    let mant := digitsToNat ip
+    if x ≥ 0 then some (neg, mant * 10 ^ x.toNat, 1) else some (neg, mant, 10 ^ (-x).toNat)
+  | _, none => none
+
+/-- `float(text)` as a `Num` (`d = 0` for ±inf); `none` = `ValueError`. -/
+def floatOfText (s : Str) : Option Num :=
+  match parseDecimal s with
+  | none => none
+  | some (neg, n, d) =>
+    match roundBinary64 n d with
+    | none => some ⟨true, if neg then -1 else 1, 0⟩
+    | some (m, e) =>
+      let (a, b) := ratioOfBinary m e
+      some ⟨true, if neg then -(a : Int) else a, b⟩
+
+/-- `int(float(text))`: `none` = `ValueError`, `some none` = `OverflowError` (inf). -/
+def intOfFloatText (s : Str) : Option (Option Int) :=
+  match floatOfText s with
+  | none => none
+  | some x => if x.d = 0 then some none else some (some (Int.tdiv x.n x.d))
+
+/-- `int(text)` for `-?[0-9]+` -/
+def intOfText (s : Str) : Option Int :=
+  match s with
+  | '-' :: r => if allDigits r then some (-(digitsToNat r : Int)) else none
+  | _ => if allDigits s then some (digitsToNat s : Int) else none
+
+end JPV.Py
